@@ -3,3 +3,4 @@ pub mod exec;
 pub mod model;
 pub mod prog;
 pub mod real;
+pub mod miri_tier;
